@@ -161,6 +161,22 @@ def _dist(ctx, desc):
         a, b = torch.as_tensor(a, dtype=torch.float64), torch.as_tensor(b, dtype=torch.float64)
         return bool(torch.allclose(a, b, rtol=rt, atol=at, equal_nan=False))
 
+    # the documented validity test agrees with the parameter domains the laws below are stated on
+    ctx.count("validity_queries")
+    try:
+        if name == "Poisson":
+            ok = D.validate(rate=conv(p["rate"]), support=torch.arange(0, 5, dtype=torch.float64))
+            bad = D.validate(rate=conv(-abs(p["rate"]) - 0.5), support=torch.tensor([0.5, -1.0]))
+        else:
+            ok = D.validate(loc=conv(p["loc"]), scale=conv(p["scale"]), support=torch.tensor([0.5, 2.0]))
+            bad = D.validate(scale=conv(-p["scale"]))
+    except Exception as e:  # noqa: BLE001
+        return ctx.violation(ctx.exc_signature(e, f"dist.{name}.validate"), f"{type(e).__name__}: {str(e)[:120]}", desc)
+    truthy = lambda v: bool(torch.as_tensor(v).all())
+    if not all(truthy(v) for v in ok.values() if v is not None):
+        return ctx.violation(f"dist.{name}.validate.rejects_valid_parameters", f"{ok}", desc)
+    if any(truthy(v) for v in bad.values() if v is not None):
+        return ctx.violation(f"dist.{name}.validate.accepts_invalid_parameters", f"{bad}", desc)
     if name == "Poisson":
         rate = p["rate"]
         K = int(rate + 12 * math.sqrt(rate) + 25)
